@@ -270,6 +270,9 @@ def file_scenario(draw, fmt="xml", max_lanelets=5, max_obstacles=4, max_pps=2, m
         sign_names = pb_sign_names(enum_cls)
     else:
         sign_names = sorted(m.name for m in enum_cls if str(m.value) != "" and str(m.value) in prof["sign_values"])
+    if prof.get("pb_sign_filter"):
+        from crverif.gen.pbprofile import pb_sign_names
+        sign_names = sorted(set(sign_names) & set(pb_sign_names(enum_cls)))
     prof["sign_names"] = sign_names
     net = draw(gs.network_recipe(ids=ids, max_lanelets=max_lanelets, lim=lim, profile=prof))
     if sign_names:
